@@ -712,6 +712,11 @@ func (db *RockDB) SetRange(ts int64, rawKey []byte, offset int, value []byte) (i
 	if err != nil {
 		return 0, err
 	}
+	if keyInfo.Expired {
+		// an expired value is dead: build on empty, as incr does (the old record
+		// is overwritten, so the table counter does not change)
+		realV = nil
+	}
 
 	if realV == nil && !keyInfo.Expired {
 		db.IncrTableKeyCount(keyInfo.Table, 1, db.wb)
@@ -791,6 +796,10 @@ func (db *RockDB) Append(ts int64, rawKey []byte, value []byte) (int64, error) {
 	keyInfo, realV, err := db.prepareKVValueForWrite(ts, rawKey, false)
 	if err != nil {
 		return 0, err
+	}
+	if keyInfo.Expired {
+		// an expired value is dead: build on empty, as incr does
+		realV = nil
 	}
 	if len(realV)+len(value) > MaxValueSize {
 		return 0, errValueSize
